@@ -18,9 +18,9 @@ logging.disable(logging.CRITICAL)
 
 from cobra import Reaction  # noqa: E402
 
-UNIV_R = coreops.RIDS + [p + m for p in ("EX_", "DM_", "SK_") for m in coreops.MIDS]
-UNIV_M = coreops.MIDS + ["nope"]
-UNIV_G = coreops.GIDS
+UNIV_R = coreops.RIDS + coreops.FRESH_R + [p + m for p in ("EX_", "DM_", "SK_") for m in coreops.MIDS + coreops.FRESH_M]
+UNIV_M = coreops.MIDS + coreops.FRESH_M + ["nope"]
+UNIV_G = coreops.GIDS + ["gX"]
 REV = {r: Reaction(r).reverse_id for r in UNIV_R}
 
 
@@ -44,6 +44,10 @@ def init_line(model, keep_ctx=False) -> str:
                        "content": canon.content_dump(model), "glpk": canon.glpk_dump(model)})
 
 
+# Renaming a reaction or metabolite (the `id` setters) is not among the operations documented as reverted by a context.
+NOT_REVERSIBLE = {"rename_rxn", "rename_met"}
+
+
 class Trace:
     def __init__(self, spec):
         self.spec = spec
@@ -62,6 +66,8 @@ def run_trace(rng, spec, nops, kinds=None, oracles=("xref", "sync", "ctx"), extr
     snaps = []            # (dump at enter, tainted?)
     for _ in range(nops):
         op = coreops.gen_op(rng, ex, kinds=kinds, p_bad=p_bad)
+        if op["op"] in ("ratchet_up", "ratchet_down"):
+            continue
         if op["op"] == "exit" and ex.depth == 0:
             continue
         if op["op"] == "enter" and ex.depth >= 3:
@@ -69,23 +75,31 @@ def run_trace(rng, spec, nops, kinds=None, oracles=("xref", "sync", "ctx"), extr
         t.ops.append(op)
         t.op_kinds.append(op["op"])
         if op["op"] == "enter":
-            snaps.append([canon.full_dump(ex.model), False])
+            snaps.append([canon.full_dump(ex.model), False, False])
+        if op["op"] in NOT_REVERSIBLE:
+            for sn in snaps:
+                sn[2] = True       # an operation that is not documented as reversible happened inside these contexts
         before = canon.full_dump(ex.model) if extra_oracle else None
         modelled = op["op"] in coreops.MODELLED
         if op["op"] in ("add_mets", "sub_mets") and op["keys"] != "str" and any(m not in ex.model.metabolites for m, _ in op["mets"]):
             modelled = False    # creates a metabolite that is new to the model: outside the modelled fragment so far
         err = ex.apply(op)
-        state = project(ex.model)
         probs = []
+        try:
+            state = project(ex.model)
+        except Exception as e:
+            state = None
+            probs.append(f"reading the model / solver state raised {type(e).__name__}: {e}")
+            modelled = False
         if "xref" in oracles:
             probs += canon.xref_problems(ex.model)
         if "sync" in oracles:
             probs += canon.sync_problems(ex.model, ex.user_vars, ex.user_cons)
         if op["op"] == "exit" and snaps:
-            snap, tainted = snaps.pop()
+            snap, tainted, irreversible = snaps.pop()
             if err is not None:
                 probs.append(f"leaving the context raised {err}")
-            elif "ctx" in oracles and canon.full_dump(ex.model) != snap:
+            elif "ctx" in oracles and not irreversible and canon.full_dump(ex.model) != snap:
                 probs.append("leaving the context did not restore the model: " + diff_summary(snap, canon.full_dump(ex.model)))
             if tainted:
                 modelled = False
@@ -93,6 +107,8 @@ def run_trace(rng, spec, nops, kinds=None, oracles=("xref", "sync", "ctx"), extr
             probs += extra_oracle(op, err, before, ex)
         for p in probs:
             t.failures.append({"step": len(t.ops) - 1, "op": op, "err": err, "what": p})
+        if state is None:
+            break
         if modelled and not (op["op"] == "set_rule"):
             t.lines.append(json.dumps(op))
             t.expect.append({"err": err, "state": state})
@@ -103,11 +119,46 @@ def run_trace(rng, spec, nops, kinds=None, oracles=("xref", "sync", "ctx"), extr
                 t.lines.append(json.dumps(op))
                 t.expect.append({"err": err, "state": state})
             else:
-                t.lines.append(init_line(ex.model, keep_ctx=True))
-                t.expect.append(None)
+                try:
+                    t.lines.append(init_line(ex.model, keep_ctx=True))
+                    t.expect.append(None)
+                except Exception as e:
+                    t.failures.append({"step": len(t.ops) - 1, "op": op, "err": err, "what": f"reading the model / solver state raised {type(e).__name__}: {e}"})
         if t.failures:
             break
-    ex.unwind()
+    # close the contexts that are still open with checked `exit` steps
+    while ex.depth > 0 and not t.failures:
+        op = {"op": "exit"}
+        t.ops.append(op)
+        t.op_kinds.append("exit")
+        err = ex.apply(op)
+        snap, tainted, irreversible = snaps.pop() if snaps else (None, True, True)
+        probs = []
+        if err is not None:
+            probs.append(f"leaving the context raised {err}")
+        elif snap is not None and "ctx" in oracles and not irreversible and canon.full_dump(ex.model) != snap:
+            probs.append("leaving the context did not restore the model: " + diff_summary(snap, canon.full_dump(ex.model)))
+        if "xref" in oracles:
+            probs += canon.xref_problems(ex.model)
+        if "sync" in oracles:
+            probs += canon.sync_problems(ex.model, ex.user_vars, ex.user_cons)
+        for p in probs:
+            t.failures.append({"step": len(t.ops) - 1, "op": op, "err": err, "what": p})
+        try:
+            if tainted:
+                t.lines.append(init_line(ex.model, keep_ctx=True))
+                t.expect.append(None)
+            else:
+                st_ = project(ex.model)
+                t.lines.append(json.dumps(op))
+                t.expect.append({"err": err, "state": st_})
+        except Exception as e:
+            t.failures.append({"step": len(t.ops) - 1, "op": op, "err": err, "what": f"reading the model / solver state raised {type(e).__name__}: {e}"})
+            break
+    try:
+        ex.unwind()
+    except Exception:
+        pass
     return t
 
 
@@ -131,7 +182,10 @@ def replay_ops(spec, ops, oracles=("xref", "sync", "ctx"), extra_oracle=None):
         if op["op"] == "exit" and ex.depth == 0:
             continue
         if op["op"] == "enter":
-            snaps.append(canon.full_dump(ex.model))
+            snaps.append([canon.full_dump(ex.model), False])
+        if op["op"] in NOT_REVERSIBLE:
+            for sn in snaps:
+                sn[1] = True
         before = canon.full_dump(ex.model) if extra_oracle else None
         err = ex.apply(op)
         probs = []
@@ -140,16 +194,30 @@ def replay_ops(spec, ops, oracles=("xref", "sync", "ctx"), extra_oracle=None):
         if "sync" in oracles:
             probs += canon.sync_problems(ex.model, ex.user_vars, ex.user_cons)
         if op["op"] == "exit" and snaps:
-            snap = snaps.pop()
+            snap, irreversible = snaps.pop()
             if err is not None:
                 probs.append(f"leaving the context raised {err}")
-            elif "ctx" in oracles and canon.full_dump(ex.model) != snap:
+            elif "ctx" in oracles and not irreversible and canon.full_dump(ex.model) != snap:
                 probs.append("leaving the context did not restore the model: " + diff_summary(snap, canon.full_dump(ex.model)))
         if extra_oracle:
             probs += extra_oracle(op, err, before, ex)
         if probs:
             fails.append({"step": n, "op": op, "err": err, "what": probs[0], "all": probs[:5]})
             break
+    while ex.depth > 0 and not fails:
+        err = ex.apply({"op": "exit"})
+        snap, irreversible = snaps.pop() if snaps else (None, True)
+        probs = []
+        if err is not None:
+            probs.append(f"leaving the context raised {err}")
+        elif snap is not None and "ctx" in oracles and not irreversible and canon.full_dump(ex.model) != snap:
+            probs.append("leaving the context did not restore the model: " + diff_summary(snap, canon.full_dump(ex.model)))
+        if "xref" in oracles:
+            probs += canon.xref_problems(ex.model)
+        if "sync" in oracles:
+            probs += canon.sync_problems(ex.model, ex.user_vars, ex.user_cons)
+        if probs:
+            fails.append({"step": len(ops), "op": {"op": "exit"}, "err": err, "what": probs[0], "all": probs[:5]})
     return fails
 
 
@@ -203,7 +271,7 @@ def compare_with_model(ctx, traces, name="Core.apply vs cobrapy") -> int:
     return validated
 
 
-def explore(ctx, ntraces, kinds=None, maxlen=14, oracles=("xref", "sync", "ctx"), extra_oracle=None, with_model=True, stats=None, engine_label="Core"):
+def explore(ctx, ntraces, kinds=None, maxlen=14, oracles=("xref", "sync", "ctx"), extra_oracle=None, with_model=True, stats=None, engine_label="Core", profiles=None):
     stats = stats if stats is not None else {}
     stats.setdefault("op_hist", {})
     stats.setdefault("err_hist", {})
@@ -217,7 +285,10 @@ def explore(ctx, ntraces, kinds=None, maxlen=14, oracles=("xref", "sync", "ctx")
     batch = []
     for _ in range(ntraces):
         spec = coreops.gen_model_spec(rng)
-        t = run_trace(rng, spec, rng.randint(3, maxlen), kinds=kinds, oracles=oracles, extra_oracle=extra_oracle)
+        tk = kinds
+        if profiles:
+            tk = rng.choice(profiles)
+        t = run_trace(rng, spec, rng.randint(3, maxlen), kinds=tk, oracles=oracles, extra_oracle=extra_oracle)
         batch.append(t)
         stats["traces"] += 1
         stats["steps"] += len(t.ops)
